@@ -80,7 +80,9 @@ def tokens(p):
     """relevant calls and branch assumptions of one path through subdivide, with entity-named arguments"""
     out = []
     for e in p.events:
-        if e.get('depth', 0) != 0:
+        # events of local helpers that were expanded into the loop body count as the loop's own (a straight-line inlined callee has no
+        # branches and none of the calls below)
+        if e.get('depth', 0) > 2:
             continue
         if e['k'] == 'call':
             n = short(e['callee']).split('::')[-1]
@@ -220,9 +222,12 @@ def check_loop(ctx, rep, rule_neigh='S-neigh', rule_recompute='S-recompute'):
             pis = [c for c in calls if c[1] == 'possible_intersection']
             if in_line:
                 queried = set(c[1] for c in calls if c[1] in ('prev', 'next') and c[2] == (o,))
-                rep.ob(rule_neigh, 'neighbours-queried-before-removal@' + key, queried == {'prev', 'next'},
+                hp, hn = brs.get('has(prev(%s))' % o), brs.get('has(next(%s))' % o)
+                none_p = 'prev' in queried and hp is not None and not is_true(hp)
+                none_n = 'next' in queried and hn is not None and not is_true(hn)
+                rep.ob(rule_neigh, 'neighbours-queried-before-removal@' + key, queried == {'prev', 'next'} or none_p or none_n,
                        'before a segment is removed both of its sweep-line neighbours must be looked up (sweep_line.prev / next of the left '
-                       'event) on every path; this path queries %s' % sorted(queried),
+                       'event) on every path, unless the first one looked up does not exist; this path queries %s' % sorted(queried),
                        loc=b.loc(rem[0][3]) if rem else b.loc(b.j['line_lo']), reason='dominance')
                 both = is_true(brs.get('has(prev(%s))' % o, ('eq', 0))) and is_true(brs.get('has(next(%s))' % o, ('eq', 0)))
                 exp = [('prev(%s)' % o, 'next(%s)' % o)] if both else []
